@@ -57,7 +57,8 @@ def run(ctx):
             want = dict((p, k) for (p, k) in rec.model["committed"] if p in (rec.real["paths"] or {}))
             if rec.extra.get("committed") != want:
                 res.disagreements.append({"what": "committed path table differs from the model", "step": rec.brief(),
-                                          "impl": rec.extra.get("committed"), "model": want})
+                                          "impl": rec.extra.get("committed"), "model": want, "source": progs.render_world(rec.world, "extmod"),
+                                          "source_before": progs.render_world(rec.prev_world, "extmod") if getattr(rec, "prev_world", None) else None})
         res.nontrivial(json.dumps([rec.hist, rec.step]))
         src = progs.render_world(rec.world, "extmod")
         for p, want in rec.ref_paths.items():
